@@ -98,6 +98,10 @@ func init() {
 		reg(&propSpec{ID: c.id, Level: "exploration", QuickSec: 45, ThoroughSec: 1200, DesignRef: c.ref,
 			Scenarios: []scenSpec{{Name: "sess", Share: 1}}, LevelText: c.text + ". Seeded search over schedules, fault sequences and generated workloads on the real package code; violations minimised and replayed exactly. Sampling, not proof.", Rule: sessRule})
 	}
+	reg(&propSpec{ID: "C13", Level: "exploration", QuickSec: 40, ThoroughSec: 1200, DesignRef: "6.C13",
+		Scenarios: []scenSpec{{Name: "fuzz", Share: 1}},
+		LevelText: "real sessions (client and server role, handshake and established phase) whose control connection receives generated wire-format events mutated by truncation, inconsistent lengths, bad magic/version/type, wrong direction or phase, duplication and garbage, delivered under seeded fragmentations and schedules; oracle: no panic or memory fault in any goroutine of the victim process, handshake returns within InitializeTimeout + slack, another session of the same process still completes a round trip, and a well-formed byte string has the same observable effect however it is cut into reads (differential between two victims in the same run).",
+		Rule: "seeded generation of event sequences from the wire format + mutation operators x fragmentation patterns (1 byte .. all at once) x kernel read fragmentation x schedules; non-trivial = non-empty input and more than 50 context switches; distinct = distinct schedule signatures among non-trivial runs"})
 }
 
 type runRecord struct {
@@ -611,8 +615,8 @@ func cmdCheck(prop string, args []string) int {
 			continue
 		}
 		nViol++
-		key := v.rec.Scenario + "|" + v.f.Rule
-		if reported[key] || len(reported) >= 3 {
+		key := v.rec.Scenario + "|" + v.f.Rule + "|" + panicSite(v.f.Stack)
+		if reported[key] || len(reported) >= 4 {
 			continue
 		}
 		reported[key] = true
@@ -699,6 +703,22 @@ func cmdCheck(prop string, args []string) int {
 	fmt.Printf("%s %s: runs=%d nontrivial-distinct=%d violations=%d known=%v wall=%.1fs (build %.1fs) seed=%d tree=%s\n",
 		prop, *tier, evals, len(sigs), nViol, knownSeen, wall, buildS, master, tree)
 	return exit
+}
+
+// panicSite returns the innermost function of the package under test on a panic stack.
+func panicSite(stack string) string {
+	for _, l := range strings.Split(stack, "\n") {
+		if strings.Contains(l, "shmipc-go.") && !strings.Contains(l, "/simrt") && !strings.Contains(l, "simrt.") && !strings.Contains(l, "sessWorld") && !strings.Contains(l, "Scenario") {
+			if i := strings.Index(l, "shmipc-go."); i >= 0 {
+				l = l[i+len("shmipc-go."):]
+			}
+			if i := strings.IndexByte(l, '('); i > 0 && !strings.HasPrefix(l, "(") {
+				l = l[:i]
+			}
+			return l
+		}
+	}
+	return ""
 }
 
 func writeAndMinimise(dir, prop, tier string, master uint64, tree string, rec runRecord, f failure) (string, *replayFile, error) {
